@@ -89,6 +89,9 @@ def rotate_spherical_vector(ra1, dec1, ra2, dec2, ra3, dec3):
 
     ra = np.arctan2(vec[:, 1], vec[:, 0])
     ra += np.where(ra < 0., twopi, 0.)
+    # A tiny negative value plus 2*pi rounds to exactly 2*pi; map it to 0 to
+    # stay within [0, 2*pi).
+    ra = np.mod(ra, twopi)
     # Rounding errors can push the z-component slightly outside [-1, 1], which
     # would result in NaN.
     dec = np.arcsin(np.clip(vec[:, 2], -1., 1.))
